@@ -67,6 +67,8 @@ def check(src, rep):
         MDT = ce.module_value("obis_map", "FIELD_METER_DATETIME")
     except NotConstant as e:
         raise Undecided(f"obis_map tables not constant: {e}")
+    if not (isinstance(name_map, dict) and len(name_map) > 10):
+        raise Undecided("obis_map.obis_name_map could not be evaluated to its table (the module-level code that fills it is outside the evaluator)")
     fr_fn, bo_fn = M.funcs.get("kamstrup.normalize_parsed_frame"), M.funcs.get("kamstrup.normalize_parsed_notification")
     rep.require(fr_fn is not None and bo_fn is not None, "anchor vanished: kamstrup normalisers")
 
